@@ -104,7 +104,7 @@ func (st *c12Storage) scan(f *c12Fn, root types.Object, depth int) {
 		switch x := n.(type) {
 		case *ast.AssignStmt:
 			for i, l := range x.Lhs {
-				if !st.isList(info, l, root) {
+				if !st.isList(info, f.fi.Decl.Body, l, root) {
 					continue
 				}
 				if len(x.Lhs) != len(x.Rhs) {
@@ -126,8 +126,21 @@ func (st *c12Storage) scan(f *c12Fn, root types.Object, depth int) {
 				if p == nil {
 					continue
 				}
-				if arg := argForParam(h.info(), h.fi, x, p); arg != nil && objOf(info, c12StripConv(info, arg)) == root && st.elem {
+				arg := argForParam(h.info(), h.fi, x, p)
+				if arg == nil {
+					continue
+				}
+				// root, or the struct root is a field of, is handed to h
+				base := c12Resolve(info, f.fi.Decl.Body, stripDerefParen(c12StripConv(info, arg)))
+				rr, rpath := c12PlaceParts(root)
+				switch {
+				case base == root && st.elem:
 					st.scan(h, p, depth-1)
+				case base != nil && base != root && len(rpath) > 0:
+					br, bpath := c12PlaceParts(base)
+					if br == rr && len(bpath) <= len(rpath) && c12SamePath(bpath, rpath[:len(bpath)]) && c12SharesWithCaller(p, rpath[len(bpath):]) {
+						st.scan(h, c12OnBase(p, rpath[len(bpath):]), depth-1)
+					}
 				}
 			}
 		}
@@ -136,13 +149,13 @@ func (st *c12Storage) scan(f *c12Fn, root types.Object, depth int) {
 }
 
 // isList: l denotes one of the lists (root[k] at element level, root itself otherwise).
-func (st *c12Storage) isList(info *types.Info, l ast.Expr, root types.Object) bool {
+func (st *c12Storage) isList(info *types.Info, body ast.Node, l ast.Expr, root types.Object) bool {
 	l = ast.Unparen(l)
 	if st.elem {
 		ix, ok := l.(*ast.IndexExpr)
-		return ok && objOf(info, ast.Unparen(ix.X)) == root
+		return ok && c12Resolve(info, body, stripDerefParen(ix.X)) == root
 	}
-	return objOf(info, l) == root
+	return c12Resolve(info, body, stripDerefParen(l)) == root
 }
 
 // classify decides whether the value of e, stored into list lhs (nil: any list), owns its storage.
@@ -325,4 +338,16 @@ func (st *c12Storage) classifyIn(h *c12Fn, call *ast.CallExpr, f *c12Fn, lhs, e 
 		}
 	}
 	return st.classify(h, nil, e, depth)
+}
+
+func c12SamePath(a, b []*types.Var) bool {
+	if len(a) != len(b) {
+		return false
+	}
+	for i := range a {
+		if a[i] != b[i] {
+			return false
+		}
+	}
+	return true
 }
